@@ -23,7 +23,8 @@ def gen_cases(chk):
     rng = chk.rng
     thorough = chk.tier == "thorough"
     cases = []
-    shapes = [(64,), (21,), (2000,), (30, 40), (100, 70), (8, 9, 10), (20, 20, 20), (3, 4, 5, 6), (6, 6, 6, 6), (15,), (2, 40)]
+    shapes = [(64,), (21,), (2000,), (30, 40), (100, 70), (8, 9, 10), (20, 20, 20), (3, 4, 5, 6), (6, 6, 6, 6), (15,), (2, 40),
+              (2, 3, 40), (2, 2, 30), (3, 2, 20), (2, 40, 3), (2, 30), (40, 2)]      # shapes too small for the interval samplers to take a sample
     if thorough:
         shapes += [(70000,), (300, 300), (40, 40, 40), (8, 8, 8, 8)] + [(n,) for n in range(21, 60, 3)]
     cfgs = ["szMode=SZ_BEST_SPEED", "-", "szMode=SZ_BEST_SPEED;withLinearRegression=NO", "withLinearRegression=NO",
@@ -55,7 +56,8 @@ def gen_cases(chk):
 
 ENVS = [("fill55", {"MALLOC_PERTURB_": "85"}, []), ("fillAA", {"MALLOC_PERTURB_": "170"}, []),
         ("fill01-noaslr", {"MALLOC_PERTURB_": "1"}, ["setarch", "x86_64", "-R"]), ("fillFF-arena", {"MALLOC_PERTURB_": "255", "MALLOC_ARENA_MAX": "1", "MALLOC_TOP_PAD_": "1048576"}, []),
-        ("stale-1", {"SZV_HEAP_PRIME": "1"}, []), ("stale-4", {"SZV_HEAP_PRIME": "4"}, []), ("stale-8", {"SZV_HEAP_PRIME": "8"}, [])]
+        ("stale-1", {"SZV_HEAP_PRIME": "1"}, []), ("stale-4", {"SZV_HEAP_PRIME": "4"}, []), ("stale-8", {"SZV_HEAP_PRIME": "8"}, []),
+        ("stack-55", {"SZV_STACK_PRIME": "55555555"}, []), ("stack-m1", {"SZV_STACK_PRIME": "bf800000"}, []), ("stack-big", {"SZV_STACK_PRIME": "7f7fffff", "SZV_HEAP_PRIME": "2"}, [])]
 
 
 def run_env(exe, cases, env, prefix):
@@ -97,7 +99,7 @@ def run(chk):
                               {"case": c, "env_a": ENVS[0][1], "env_b": ENVS[j][1], "out_a": outs[0][i][:200], "out_b": outs[j][i][:200], "variant": "plain"})
     chk.cov["traces_validated_against_impl"] = len(cases)
     chk.cov["rule"] = ("each (array, arguments, configuration) triple is compressed and decompressed in four fresh processes with different heap fill "
-                       "patterns (MALLOC_PERTURB_ 85/170/1/255) or freed blocks holding the stale words 1/4/8, with and without address-space randomisation, one and many arenas; stream size, stream "
+                       "patterns (MALLOC_PERTURB_ 85/170/1/255) or freed blocks holding the stale words 1/4/8, or a stack pre-filled with 0x55555555 / -1.0f / FLT_MAX, with and without address-space randomisation, one and many arenas; stream size, stream "
                        "digest and reconstruction digest must be identical; all ten element types, ranks 1..4, SZ-1.4 and regression kernels, PW_REL, "
                        "fixed intervals, both back ends, constant / lossless / tiny-bypass streams")
     chk.cov["input_distribution"] = {"cases": len(cases), "environments": [e[0] for e in ENVS]}
